@@ -6,7 +6,7 @@ import json, os, re, subprocess, sys
 V = "/verif"
 WT = "/tmp/wt/eval"
 EXTRA = {"C01-1": ["C04"], "C01-2": ["C13"], "C08-2": ["C02"], "C03-2": ["C13"], "C02-4": ["C08"], "C08-3": ["C12"], "C08-4": ["C09"],
-         "C09-4": ["C08"], "C12-4": ["C02"], "C01-4": ["C04"], "C05-4": ["C04"], "C20-3": ["C11"], "C07-4": ["C09"], "C11-3": ["C20"], "C14-4": ["C17"], "C18-5": ["C10"], "C04-5": ["C11"], "C12-6": ["C10"], "C08-5": ["C10"], "C17-6": ["C14"], "C02-6": ["C04"], "C14-6": ["C11"], "C20-5": ["C04"], "C13-5": ["C11"], "C01-5": ["C05"], "C01-6": ["C04"], "C19-6": ["C08"], "C06-6": ["C09"]}
+         "C09-4": ["C08"], "C12-4": ["C02"], "C01-4": ["C04"], "C05-4": ["C04"], "C20-3": ["C11"], "C07-4": ["C09"], "C11-3": ["C20"], "C14-4": ["C17"], "C18-5": ["C10"], "C04-5": ["C11"], "C12-6": ["C10"], "C08-5": ["C10"], "C17-6": ["C14"], "C02-6": ["C04"], "C14-6": ["C11"], "C20-5": ["C04"], "C13-5": ["C11"], "C01-5": ["C05"], "C01-6": ["C04"], "C19-6": ["C08"], "C06-6": ["C09"], "C03-5": ["C15"], "C03-6": ["C13", "C14"]}
 args = [a for a in sys.argv[1:] if not a.startswith("--")]
 only_new = "--only-new" in sys.argv
 ids = sorted(d for d in os.listdir(f"{V}/seeded") if os.path.isdir(f"{V}/seeded/{d}"))
@@ -28,7 +28,7 @@ for sid in ids:
     try:
         for chk in [meta["property"]] + EXTRA.get(sid, []):
             p = subprocess.run(["./check", chk, "quick"], cwd=V, capture_output=True, text=True, env=env)
-            sigs = re.findall(r"sig=(\S+) count=(\d+)", p.stdout)
+            sigs = re.findall(r"sig=(.+?) count=(\d+)", p.stdout)
             det[chk] = {"rc": p.returncode, "signatures": [s for s, _ in sigs][:6]}
     finally:
         subprocess.run(["git", "-C", WT, "checkout", "-q", "--", "."], check=True)
